@@ -10,7 +10,7 @@ import (
 
 // C18 — spray-and-wait never exceeds, and never leaks, its copy budget.
 
-var c18Ops = []string{"submit", "submit", "recv", "up", "up", "up", "up", "down", "script", "script", "script", "tick", "tick", "tick", "restart"}
+var c18Ops = []string{"submit", "submit", "recv", "recvdup", "up", "up", "up", "up", "down", "script", "script", "script", "tick", "tick", "tick", "restart"}
 
 type c18Ledger struct {
 	held     int             // binary: copies held by this node
@@ -43,10 +43,31 @@ func c18Body(c *vk.Ctx, cs hCase) {
 	sawFail := false
 	restarted := false
 	for k, op := range cs.Ops {
+		// a second reception of a bundle: while the node still holds the bundle the copy is dropped and changes
+		// nothing; if the bundle has left the store in the meantime the node accepts it as a new bundle
+		var dupOf *hBundleState
+		dupStored := false
+		if op.Op == "recvdup" && len(w.bs) > 0 {
+			if st := w.bs[op.A%len(w.bs)]; st.accepted && !st.plan.Local {
+				dupOf, dupStored = st, w.s.storeHas(st.b.ID())
+			}
+		}
 		if !w.apply(k, op) {
 			continue
 		}
 		c.Class("op=" + op.Op)
+		if dupOf != nil && led[dupOf] != nil {
+			if dupStored {
+				c.Class("second copy of a bundle the node still holds")
+			} else {
+				c.Class("second copy of a bundle that had left the store: accepted anew")
+				l := &c18Ledger{okPeers: map[string]bool{}, held: 1}
+				if binary && dupOf.plan.Copies > 0 {
+					l.held = dupOf.plan.Copies
+				}
+				led[dupOf] = l
+			}
+		}
 		if op.Op == "restart" {
 			// the copy budget is kept in memory only: after a restart the node may have forgotten copies (it
 			// then only delivers directly), but it must never hand out copies it has already given away
@@ -237,7 +258,7 @@ func genC18(t *rapid.T) hCase {
 
 func TestVerifC18Histories(t *testing.T) {
 	u := vk.Unit{Property: "C18", Name: "c18.histories", Quick: 900, Thorough: 16000,
-		Rule: "histories over {submit, receive with k copies (binary), peer appears/disappears, sends to a peer fail/succeed - including sends to the directly connected destination -, retry tick, orderly restart} for budgets L = 1..8 and 1..6 peers, under spray-and-wait and binary spray; oracle = copy-budget ledger fed only by what the scripted peers observe (bytes and outcomes): vanilla: successful transmissions to non-destination peers <= L-1 at all times and, once all peers are connected and succeed, exactly min(L-1, peers); binary: every transmitted copy announces half (rounded down) of the copies held, also after a failed transmission, and a holder of one copy transmits only to the destination; non-trivial = a failed transmission followed by a successful one; distinct by case hash"}
+		Rule: "histories over {submit, receive with k copies (binary), a second reception of the same bundle, peer appears/disappears, sends to a peer fail/succeed - including sends to the directly connected destination -, retry tick, orderly restart} for budgets L = 1..8 and 1..6 peers, under spray-and-wait and binary spray; oracle = copy-budget ledger fed only by what the scripted peers observe (bytes and outcomes): vanilla: successful transmissions to non-destination peers <= L-1 at all times and, once all peers are connected and succeed, exactly min(L-1, peers); binary: every transmitted copy announces half (rounded down) of the copies held, also after a failed transmission, and a holder of one copy transmits only to the destination; non-trivial = a failed transmission followed by a successful one; distinct by case hash"}
 	vk.Check(t, u, genC18, c18Body)
 	_ = fmt.Sprint
 }
